@@ -1,5 +1,6 @@
 //! unit: u01j
-//! properties: C01 C03 C12 C10 C02
+//! properties: C01 C03 C12 C10 C02 C05 C09
+//! note: also run for C05, C09: the code it constrains lies inside mechanisms those properties name (a change made there for their sake must meet these clauses too)
 //! note: which pending HTLCs count towards the next commitment and which are already folded into the balance (ChannelContext::get_next_commitment_htlcs vs get_next_commitment_value_to_self_msat): every pending HTLC is represented exactly once
 //! trusted: R15 (statement slicing): both functions are iterator chains over the channel's HTLC vectors; the unit extracts, on every run, the four `match (state, local)` predicates (the bodies of the `.filter(..)` closures) verbatim into four predicate functions over the real state enums and proves the exactly-once relation between them; the surrounding map/sum/chain plumbing is dropped and not claimed
 //! trusted: payload types of the state enums (InboundHTLCResolution, InboundUpdateAdd, OnionErrorPacket, OnionPacket, PaymentPreimage, AttributionData, HTLCFailReason) are opaque
